@@ -19,6 +19,8 @@ def complex_actions():
             yield ('await', delay, fail)
     for failpos in (None, 0, 1, 2):
         yield ('map_iter', failpos)
+    for failpos in (1, 2):
+        yield ('map_reiter', failpos)
     for delays in ((0.0, 0.0), (0.0, T / 4), (2 * T, 0.0)):
         for failpos in (None, 0, 1, 2):
             yield ('amap', delays, failpos)
@@ -59,6 +61,9 @@ def concretise(seq, gaps):
             nxt += 1
         elif k == 'map_iter':
             ev.append((g, ('map_iter', (nxt, nxt + 1), a[1])))
+            nxt += 2
+        elif k == 'map_reiter':
+            ev.append((g, ('map_reiter', (nxt, nxt + 1), a[1])))
             nxt += 2
         elif k == 'amap':
             ev.append((g, ('amap', ((nxt, a[1][0]), (nxt + 1, a[1][1])), a[2])))
